@@ -21,6 +21,7 @@ package yang
 import (
 	"fmt"
 	"sort"
+	"strings"
 	"sync"
 )
 
@@ -246,6 +247,13 @@ func (ms *Modules) FindModule(n Node) *Module {
 	}
 	if n := m[name]; n != nil {
 		return n
+	}
+
+	// The argument of an import or include is an identifier, and so is
+	// its revision date: what contains a path separator cannot name a
+	// module file in the search path and is not handed on as a path.
+	if strings.ContainsAny(rev, `/\`) {
+		return nil
 	}
 
 	// Try to read first a module by revision
